@@ -24,6 +24,24 @@ T = {
  "C07": ("E3 actorstep", "exhaustive enumeration of network contents and of all paths to a depth bound of scripted systems, with a ghost ledger fed from the scripts' sends",
          "model_checking", "len/iter_all/iter_deliverable agree with the contents on every constructible network and at every state along every path; every delivery is of a sent-and-not-consumed envelope; ordered flows deliver in order without duplication; no redelivery after a drop; drops only when lossy.",
          "ledger sends come from the handler scripts (independent of the network code); consumption from executed actions", "DESIGN §4 C07"),
+ "C08": ("E5 histories", "exhaustive enumeration of all event sequences (invocations/returns, all return values, in-flight operations, ill-formed events) within a thread/operation bound on the real LinearizabilityTester vs a definition-level search",
+         "model_checking", "Every history within the bound for three specifications: is_consistent <=> a legal total order exists (program order + real time, any subset of in-flight operations); serialized_history is a member of that set; len; ill-formed events are rejected and the tester stays inconsistent for all continuations.",
+         "the oracle is a direct search over the definition, cross-checked against the literal subsets-x-permutations formulation on all histories with <=3 operations", "DESIGN §4 C08, appendix B"),
+ "C10": ("C10 symmetry", "exhaustive enumeration of sort vectors, Rewrite impls x all plans, constructed 3-actor states (representative vs harness-applied stable sorting permutation), all process-symmetric models (dfs with/without symmetry vs plain-search oracle)",
+         "model_checking", "Plans are the stable sorting permutation; every Rewrite impl applies it element-wise; representative() is the image under that single permutation of all six components; symmetry reduction keeps verdicts, evaluates one state per orbit at least, never more than the plain run, and reports real paths.",
+         "timer tags are id-free (the Timers impl does not rewrite them)", "DESIGN §4 C10"),
+ "C14": ("E5 histories", "same enumeration as C08 on the real SequentialConsistencyTester vs the definition without the real-time clause; clone test with every next event",
+         "model_checking", "is_consistent <=> a legal total order respecting program order exists; serialization is a member; every history accepted by the linearizability tester is accepted; recording into a clone never alters the original; ill-formed histories rejected.",
+         "as C08", "DESIGN §4 C14"),
+ "C15": ("C15 adapters", "exhaustive enumeration of adapter placement x event kind x handler output vs a direct call of the wrapped actor; state-graph isomorphism of wrapped vs bare scripted systems; all Vec-client scripts x incoming sequences",
+         "model_checking", "Every start/message/timeout/random event reaches the wrapped actor once with the same arguments; commands and state changes come back unchanged; wrapped systems have the same reachable graph as bare ones.",
+         "graphs compared through canonical keys after unwrapping states/messages", "DESIGN §4 C15"),
+ "C16": ("C16 link", "explicit-state search of every reachable state of link-wrapped systems over lossy duplicating/reordering networks within a network-size boundary, invariants evaluated in every state",
+         "model_checking", "In every reachable state the handed-over sequence is a prefix of the sent one, nothing is acknowledged (no longer retransmitted) before it was handed over, and all-acknowledged implies equality.",
+         "states de-duplicated on the subject's own Hash/Eq (validated separately by C04); pending acknowledgements observed through what the link would retransmit; wrapped state through hook H5", "DESIGN §4 C16"),
+ "C20": ("C20 laws", "exhaustive enumeration of all small vector clocks (pairs, triples) and dense maps (construction orders, inserts, plans)",
+         "model_checking", "Partial-order laws, equality up to trailing zeros, hash consistency, merge_max = least upper bound within the domain, increment strictly greater; dense maps order-independent, gap/duplicate rejection, insert semantics, rewrite moves values to rewritten keys.",
+         "least-upper-bound minimality is checked against all upper bounds inside the enumerated domain", "DESIGN §4 C20"),
  "C09": ("E3 actorstep", "exhaustive enumeration of crash points: every constructed state x budget; differential crashed-vs-up step comparison; monitor over all reachable states; real bfs/dfs visited set vs independent exploration",
          "fault_enumeration", "Crash offered exactly when allowed; crash step clears timers/choices only; all other actions behave as before; nothing is ever enabled for a crashed actor on any reachable state; every crashed-vector within the budget is reached and the real checkers evaluate every such state.",
          "reference interpreter and xplore (canonical keys from public fields) trusted", "DESIGN §4 C09"),
@@ -68,6 +86,11 @@ m = {
  "engines": [
    {"name": "E3 actorstep", "path": "harness/src/engines/e3.rs", "serves_properties": ["C06","C07","C09"], "kind_free_text": "explicit enumeration of actor-system states/actions/handler outputs on the real ActorModel vs a reference interpreter; xplore over scripted systems"},
    {"name": "E4 identity", "path": "harness/src/engines/e4.rs", "serves_properties": ["C04"], "kind_free_text": "all pairs of small values: recording hasher stream, real fingerprint, component-wise identity"},
+   {"name": "E5 histories", "path": "harness/src/engines/e5.rs", "serves_properties": ["C08","C14","C18"], "kind_free_text": "all small concurrent histories on the real testers vs definition-level search"},
+   {"name": "C10 symmetry", "path": "harness/src/engines/c10.rs", "serves_properties": ["C10"], "kind_free_text": "plans, rewrites, representatives, symmetric models"},
+   {"name": "C15 adapters", "path": "harness/src/engines/c15.rs", "serves_properties": ["C15"], "kind_free_text": "adapter transparency per call and per system"},
+   {"name": "C16 link", "path": "harness/src/engines/c16.rs", "serves_properties": ["C16"], "kind_free_text": "explicit-state search of ORL systems"},
+   {"name": "C20 laws", "path": "harness/src/engines/c20.rs", "serves_properties": ["C20"], "kind_free_text": "algebraic laws by enumeration"},
    {"name": "E1 graphs", "path": "harness/src/engines/e1.rs", "serves_properties": ["C01","C02","C03","C11","C12","C13"], "kind_free_text": "explicit enumeration of all small finite models, executed on the real checkers, compared with graph oracles"},
  ],
  "checks": checks,
